@@ -24,3 +24,4 @@ _reg("C15")
 _reg("C16")
 _reg("C17", "interp")
 _reg("C27")
+_reg("C19")
